@@ -164,8 +164,8 @@ _R9 = {
     "C01": "Round 9: every other run addresses its targets by a name with an IPv6 and an IPv4 address while the server has no usable IPv6 source address (the shard runs in a private mount namespace with its own /etc/hosts; skipped and recorded where that is not permitted); SOCKS5 associations also send datagrams with FRAG != 0 and must go on relaying afterwards; targets also answer with zero-length datagrams; the refusing port is reserved for the whole run.",
     "C03": "Round 9: a third job runs the bridge executions of C13 (local bursts of several hundred KiB ready at once) with only the credit rules giving verdicts.",
     "C04": "Round 9: a third of the isolation scenarios flood an endpoint whose application does not fetch (or only slowly fetches) its datagrams with more datagrams than its buffer holds.",
-    "C06": "Round 9: a Reset sent after the peer's Reset of the same stream was delivered, while the application still holds the stream, is reported (a Reset answered with a Reset).",
-    "C08": "Round 9: a ninth fault kind (dead peer behind a sink that never becomes ready again), the executions in which the application keeps reading its streams after dropping the Multiplexor, and the rule that the payload delivered to an endpoint for a stream its application holds is read before end-of-stream.",
+    "C06": "Round 9: a real-thread job (thr-abort): 1600 aborts per run on a 6-worker runtime, judged by final state only (one Reset per abort on the wire, flow table empty); a first shutdown() after the peer's Reset must put no Finish on the wire; a Reset sent after the peer's Reset of the same stream was delivered, while the application still holds the stream, is reported (a Reset answered with a Reset).",
+    "C08": "Round 9: fault kinds FlushErr (a buffering sink that fails only when flushed) at every send index; a ninth fault kind (dead peer behind a sink that never becomes ready again), the executions in which the application keeps reading its streams after dropping the Multiplexor, and the rule that the payload delivered to an endpoint for a stream its application holds is read before end-of-stream.",
     "C11": "Round 9: every datagram accepted by send_datagram must appear on the wire while the connection is up.",
     "C12": "Round 9: 400 000 (quick) single-poll-versus-grant races on two free-running threads released together, judged by the exact final-state oracle (reaches the window between the writer's load and its compare-exchange, where no hook lies); the writer's waker is a scheduling point of the thread that invokes it (a wake-up is the moment another worker may poll the task), so orders in which the woken writer runs before the waking thread's next statement are enumerated; the free-running stress reports a poll that burns seconds of its thread's CPU time without returning.",
     "C13": "Round 9: local sides with several hundred KiB ready in one poll; the far application also performs zero-length writes.",
